@@ -22,6 +22,7 @@ import (
 	"testing"
 	"time"
 
+	"verifharness/cw"
 	"verifharness/vh"
 
 	"github.com/alphadose/haxmap"
@@ -303,6 +304,11 @@ func runScript(sc script, mercury *etcdv3.Mercury) (res result) {
 	}
 
 	k, m := 0, 0 // current interval, next slot in it
+	if sc.Etcd {
+		// the stream's start (Get, replayed changes) gets the whole first interval to
+		// be consumed; the tick at its end finds no subscriber
+		k = 1
+	}
 	snapshot := func(a action) {
 		got := make([][][]int, len(subs))
 		for i, s := range subs {
@@ -708,6 +714,76 @@ func (g gen) script(name string, etcd bool, allowStall bool) script {
 	return sc
 }
 
+// calciumGlue runs the one scenario that needs a real Calcium: the subscriber
+// is created by calcium.WatchServiceStatus (Subscribe + a pool goroutine doing
+// "<-ctx.Done(); Unsubscribe(id)"), a service is registered through the real
+// store, the subscriber's context is cancelled.  Calcium's own helium runs with
+// a 15 s push interval, so no tick falls into the scenario.
+func calciumGlue(t *testing.T) result {
+	w := cw.New(t, cw.Options{})
+	res := result{Script: script{Name: "calcium-watch-service-status", Etcd: true,
+		Acts: []action{sub(true), put(1), on("cancelunsub", 0)}}, Keys: []int{0}}
+	// let calcium's helium consume the initial (empty) list of its stream first
+	time.Sleep(1200 * time.Millisecond)
+	ctx, cancel := context.WithCancel(w.Ctx)
+	defer cancel()
+	ch, err := w.C.WatchServiceStatus(ctx)
+	if err != nil {
+		res.Err = err.Error()
+		return res
+	}
+	var mu sync.Mutex
+	var msgs [][]int
+	closed := make(chan struct{})
+	go func() {
+		defer close(closed)
+		for m := range ch {
+			out := []int{}
+			for _, a := range m.Addresses {
+				out = append(out, addrOrd(a))
+			}
+			sort.Ints(out)
+			if m.Interval != 2*w.Cfg.GRPCConfig.ServiceDiscoveryPushInterval {
+				out = []int{poison}
+			}
+			mu.Lock()
+			msgs = append(msgs, out)
+			mu.Unlock()
+		}
+	}()
+	take := func() [][][]int {
+		mu.Lock()
+		defer mu.Unlock()
+		out := msgs
+		msgs = nil
+		if out == nil {
+			out = [][]int{}
+		}
+		return [][][]int{out}
+	}
+	time.Sleep(300 * time.Millisecond)
+	res.Slots = append(res.Slots, slotObs{Act: res.Script.Acts[0], Got: take()})
+	_, unreg, err := w.RawStore.RegisterService(w.Ctx, addrName(1), 30*time.Second)
+	if err != nil {
+		res.Err = err.Error()
+		return res
+	}
+	defer unreg()
+	time.Sleep(400 * time.Millisecond)
+	res.Slots = append(res.Slots, slotObs{Act: res.Script.Acts[1], Got: take()})
+	cancel()
+	isClosed := false
+	select {
+	case <-closed:
+		isClosed = true
+	case <-time.After(3 * time.Second):
+	}
+	res.Slots = append(res.Slots, slotObs{Act: res.Script.Acts[2], Got: take()})
+	res.FinClosed = []bool{isClosed}
+	res.FinUnsub = []bool{isClosed} // the channel is closed right after the loop received the Unsubscribe
+	return res
+}
+
 func TestC27(t *testing.T) {
 	r := vh.New(t, "C27", "helium")
 	r.Coq("From Verif Require Import Discovery.Helium.", "Helium.case", "Helium.agree", "Helium.ok")
@@ -725,12 +801,22 @@ func TestC27(t *testing.T) {
 		scripts = append(scripts, g.script(fmt.Sprintf("rand-etcd-%d", i), true, i%4 == 3))
 	}
 
+	// first (it wipes the embedded etcd): the scenario over a real Calcium
+	args0 := os.Args
+	glue := calciumGlue(t)
+	os.Args = args0
+
 	results := make([]result, len(scripts))
 	var wg sync.WaitGroup
 	runWithRetry := func(i int, m *etcdv3.Mercury) {
 		for try := 0; try < 3; try++ {
+			if m != nil && try > 0 {
+				// a fresh key prefix for the new attempt
+				old := m.KV.(*prefixKV)
+				m.KV = &prefixKV{KV: old.KV, p: fmt.Sprintf("%s-retry%d", old.p, try)}
+			}
 			results[i] = runScript(scripts[i], m)
-			if !results[i].Late || scripts[i].Etcd {
+			if !results[i].Late {
 				return
 			}
 		}
@@ -760,6 +846,7 @@ func TestC27(t *testing.T) {
 	}
 	wg.Wait()
 
+	results = append(results, glue)
 	for _, res := range results {
 		if res.Err != "" {
 			t.Fatalf("script %s: %s", res.Script.Name, res.Err)
@@ -786,7 +873,7 @@ func TestC27(t *testing.T) {
 		tags := map[string]any{"stall_exposed": exposed, "etcd": res.Script.Etcd, "stream_closed": kinds["close"] || res.Script.StartErr}
 		r.Add(coqCase(res), res, tags, len(res.Keys) > 0 && nmsg > 0)
 	}
-	r.Finish("corpus (12 stub + 2 etcd scripts incl. the witness of the finding) then random scripts of 7-13 actions over <=4 subscribers " +
+	r.Finish("corpus (12 stub + 4 etcd scripts incl. the witness of the finding and changes inside the stream's Watch/Get window; one scenario through the real calcium.WatchServiceStatus) then random scripts of 7-13 actions over <=4 subscribers " +
 		"(set/put/del | sub | read | stall | cancel | unsub | cancelunsub | wait), every third stub script allows stalled subscribers; " +
 		"non-trivial = at least one subscriber and one delivered message")
 }
